@@ -1,9 +1,14 @@
 package props
 
 import (
+	"fmt"
+	"os"
+	"strings"
 	"time"
 
 	"verif/explore"
+	"verif/ref"
+	"verif/world"
 )
 
 // C10: every outbound QoS 1/2 PUBLISH carries a packet identifier in 1..65535 that no
@@ -25,18 +30,208 @@ import (
 // exchange survives outbound acknowledgements with the same id: no second forward on DUP,
 // PUBCOMP without failure, exactly one copy at s.
 
+// Engine E3, scenario "c10conc": identifiers allocated by deliveries that run AT THE SAME
+// TIME on different broker threads. Subscriber a (v5, persistent) subscribes t at QoS sq
+// and (held=1) already holds one unacknowledged message (id 1). Then the deliveries named
+// by k=<letters> start together and every interleaving of the broker threads up to the
+// preemption bound is executed (scheduling points: every lock, atomic, channel operation):
+//
+//	p  one more publisher p<i> sends a QoS pq PUBLISH on t          (its read loop delivers)
+//	r  a subscribes r/# (QoS 1) where a retained QoS 1 message waits (a's read loop delivers)
+//	w  client w (will: topic t, QoS 1) loses its connection         (w's read loop delivers the will)
+//
+// a acknowledges nothing while they run. Monitor (same rule as the sequential model): all
+// QoS>0 PUBLISH packets a holds unacknowledged carry pairwise different identifiers in
+// 1..65535; key c10:outbound-pid-in-use:concurrent-deliveries. Then a acknowledges the
+// FIRST message it received and resumes the session: every other message is unacknowledged
+// and must be redelivered (one acknowledgement never completes two messages); key
+// c10:outbound-completed-by:acknowledgement-of-other-message.
+func c10Conc(arg string) explore.RunFn {
+	kind := argStr(arg, "k", "pp")
+	sq := byte(argInt(arg, "sq", 1))
+	pq := byte(argInt(arg, "pq", 1))
+	held := argInt(arg, "held", 0) == 1
+	return func(prefix []int) (o explore.Outcome) {
+		w := world.New(prefix, world.Config{})
+		defer w.End()
+		a := w.Connect(v5connect("a", false, 0, 600))
+		a.Do(sub(1, "t", sq))
+		var ps []*world.Client
+		for i := 0; i < strings.Count(kind, "p")+1; i++ {
+			ps = append(ps, w.Connect(world.ConnectPacket(fmt.Sprintf("p%d", i), 4, true)))
+		}
+		var wc *world.Client
+		if strings.Contains(kind, "w") {
+			cp := world.ConnectPacket("w", 4, true)
+			cp.WillFlag, cp.WillTopic, cp.WillPayload, cp.WillQos = true, "t", []byte("will"), 1
+			wc = w.Connect(cp)
+		}
+		if strings.Contains(kind, "r") {
+			rp := pub("r/x", "ret", 1, 40)
+			rp.Retain = true
+			ps[0].Do(rp)
+		}
+		type dl struct {
+			tag string
+			id  uint16
+			qos byte
+		}
+		var have []dl
+		if held {
+			ps[0].Do(pub("t", "m0", 1, 41))
+			for _, pk := range a.Poll() {
+				if pk.Type == ref.PUBLISH && pk.Qos > 0 {
+					have = append(have, dl{string(pk.Payload), pk.PacketID, pk.Qos})
+				}
+			}
+		}
+		for _, c := range ps {
+			c.Poll()
+		}
+		a.Poll()
+		base := len(a.Recv)
+		want := len(have)
+		np := 0
+		for _, k := range kind {
+			want++
+			switch k {
+			case 'p':
+				np++
+				ps[np].Send(pub("t", fmt.Sprintf("m%d", np), pq, uint16(10+np)))
+			case 'r':
+				a.Send(sub(2, "r/#", 1))
+			case 'w':
+				wc.C.PeerClose()
+			}
+		}
+		w.Explore(true)
+		w.Run()
+		w.Explore(false)
+		a.Poll()
+		o = explore.Outcome{Points: w.X.Points, Divergence: w.X.Divergence(), Steps: w.X.Steps(), Counters: map[string]int{}}
+		defer func() { o.Viol = append(o.Viol, runtimeViolations(w)...) }()
+		var seq []string
+		for _, pk := range a.Recv[base:] {
+			if pk.Type != ref.PUBLISH || pk.Qos == 0 {
+				continue
+			}
+			d := dl{string(pk.Payload), pk.PacketID, pk.Qos}
+			seq = append(seq, fmt.Sprintf("%s=%d", d.tag, d.id))
+			if d.id == 0 {
+				o.Viol = append(o.Viol, explore.Violation{Key: "c10:outbound-pid-out-of-range:concurrent-deliveries", Msg: fmt.Sprintf("PUBLISH of %s carries packet id 0", d.tag)})
+			}
+			for _, e := range have {
+				if e.id == d.id {
+					o.Viol = append(o.Viol, explore.Violation{Key: "c10:outbound-pid-in-use:concurrent-deliveries", Msg: fmt.Sprintf("PUBLISH of %s uses packet id %d which the unacknowledged message %s is using (deliveries %q started together; a received %v)", d.tag, d.id, e.tag, kind, seq)})
+				}
+			}
+			have = append(have, d)
+		}
+		o.Obs = strings.Join(seq, " ")
+		if len(have) == want {
+			o.Counters["all_concurrent_deliveries_received"]++
+			if len(seq) > 1 && !sortedTags(seq) {
+				o.Counters["deliveries_overtook_each_other"]++
+			}
+		}
+		// a acknowledges the first message only and resumes the session
+		if len(have) > 1 && !a.Closed() {
+			f := have[0]
+			if f.qos == 1 {
+				a.Do(ref.Packet{Type: ref.PUBACK, PacketID: f.id})
+			} else {
+				a.Do(ref.Packet{Type: ref.PUBREC, PacketID: f.id})
+				a.Do(ref.Packet{Type: ref.PUBCOMP, PacketID: f.id})
+			}
+			a.Drop()
+			a2 := w.Connect(v5connect("a", false, 0, 600))
+			got := a2.Poll()
+			if len(got) > 0 && got[0].Type == ref.CONNACK && got[0].SessionPresent {
+				o.Counters["resumptions_after_one_acknowledgement"]++
+				for _, e := range have[1:] {
+					n := 0
+					for _, pk := range got[1:] {
+						if pk.Type == ref.PUBLISH && string(pk.Payload) == e.tag {
+							n++
+						}
+					}
+					if n == 0 {
+						shape := "other"
+						for _, x := range have {
+							if x != e && x.id == e.id {
+								shape = "same-id"
+							}
+						}
+						o.Viol = append(o.Viol, explore.Violation{Key: "c10:outbound-completed-by:acknowledgement-of-other-message:" + shape, Msg: fmt.Sprintf("a acknowledged only %s (id %d); after the session was resumed %s (id %d, unacknowledged) is not redelivered: %v", f.tag, f.id, e.tag, e.id, got)})
+					}
+				}
+			}
+		}
+		return o
+	}
+}
+
+// sortedTags: the deliveries arrived in the order in which the scenario lists them.
+func sortedTags(seq []string) bool {
+	for i := 1; i < len(seq); i++ {
+		if seq[i-1] > seq[i] {
+			return false
+		}
+	}
+	return true
+}
+
 func init() {
+	explore.RegisterDFS("c10conc", c10Conc)
 	explore.RegisterBFS("c10", qosRun("c10"))
 	explore.Register("C10", func(c *explore.Ctx) {
 		c.Rep.Level = "model_checking"
 		c.Rep.Assumption("one client action at a time, broker run to quiescence under the deterministic default schedule (sequential histories)")
 		c.Rep.Assumption("state = reflective dump of *Server plus reference-model state and pool counters; histories merged only if byte-identical")
 		c.Rep.Assumption("maximum packet id lowered to 3 through the verif-only setter so that identifier wrap-around is reachable within the pools")
+		c.Rep.Assumption("concurrent deliveries (c10conc): threads serialised by the cooperative scheduler (sequentially consistent interleavings), all interleavings up to the stated preemption bound; the subscriber acknowledges nothing while the deliveries run")
+		// concurrent allocation first: few, short executions
+		conc := map[string]int64{}
+		runConc := func(arg string, bounds []explore.Bounds, per time.Duration) {
+			if c.Expired() {
+				c.Rep.Capped("c10conc " + arg + " not started (deadline)")
+				return
+			}
+			if _, last := explore.IterateDFS(c, "c10conc", arg, bounds, per); last != nil {
+				for k, v := range last.Counters {
+					conc[k] += v
+				}
+			}
+		}
+		if c.Quick() {
+			b := []explore.Bounds{{Preempt: 0}, {Preempt: 1}, {Preempt: 2}}
+			runConc("k=pp,sq=1,held=1", b, 9*time.Second)
+			runConc("k=pr,sq=2,pq=2", b, 5*time.Second)
+			runConc("k=pw,sq=1", b, 5*time.Second)
+		} else {
+			b := []explore.Bounds{{Preempt: 0}, {Preempt: 1}, {Preempt: 2}, {Preempt: 3}}
+			runConc("k=pp,sq=1,held=1", b, 60*time.Second)
+			runConc("k=pp,sq=2,pq=2", b, 60*time.Second)
+			runConc("k=ppp,sq=1", b, 60*time.Second)
+			runConc("k=pr,sq=2,pq=2,held=1", b, 45*time.Second)
+			runConc("k=pw,sq=1,held=1", b, 45*time.Second)
+			runConc("k=prw,sq=1", b, 60*time.Second)
+		}
+		for k, v := range conc {
+			c.Rep.Count("conc_"+k, v)
+		}
+		if os.Getenv("VERIF_SCEN") == "" {
+			for _, k := range []string{"all_concurrent_deliveries_received", "deliveries_overtook_each_other", "resumptions_after_one_acknowledgement"} {
+				if conc[k] == 0 {
+					c.Rep.Add(explore.Violation{Key: "internal:vacuous:conc_" + k, Msg: "the concurrent-delivery scenarios never produced the case '" + k + "'"})
+				}
+			}
+		}
 		var sts []*explore.BFSStats
 		if c.Quick() {
-			sts = append(sts, explore.RunBFS(c, "c10", "v=5,maxpid=3,pubs=3,qos=12,conns=1,apubs=2,aids=2,aqos=12,adup=1,closure=reconnect", 0, 40*time.Second))
-			sts = append(sts, explore.RunBFS(c, "c10", "v=5,maxpid=3,pubs=5,qos=1,conns=1,apubs=0,closure=reconnect", 0, 15*time.Second))
-			sts = append(sts, explore.RunBFS(c, "c10", "v=4,maxpid=3,pubs=2,qos=12,conns=1,apubs=2,aids=2,aqos=2,adup=1,closure=reconnect", 0, 15*time.Second))
+			sts = append(sts, explore.RunBFS(c, "c10", "v=5,maxpid=3,pubs=3,qos=12,conns=1,apubs=2,aids=2,aqos=12,adup=1,closure=reconnect", 0, 32*time.Second))
+			sts = append(sts, explore.RunBFS(c, "c10", "v=5,maxpid=3,pubs=5,qos=1,conns=1,apubs=0,closure=reconnect", 0, 12*time.Second))
+			sts = append(sts, explore.RunBFS(c, "c10", "v=4,maxpid=3,pubs=2,qos=12,conns=1,apubs=2,aids=2,aqos=2,adup=1,closure=reconnect", 0, 11*time.Second))
 		} else {
 			sts = append(sts, explore.RunBFS(c, "c10", "v=5,maxpid=3,pubs=3,qos=12,conns=2,apubs=3,aids=3,aqos=12,adup=1,closure=reconnect", 0, 6*time.Minute))
 			sts = append(sts, explore.RunBFS(c, "c10", "v=5,maxpid=3,pubs=6,qos=12,conns=1,apubs=0,closure=reconnect", 0, 2*time.Minute))
